@@ -750,6 +750,8 @@ class Frame:
                     return r
             if obj.pytype == "Token" and name in ("upper", "lower", "strip", "startswith", "endswith"):
                 return FuncRef(None, builtin="method:" + name, self_obj=obj.attrs.get("value"))
+            if obj.pytype == "Logger" or (I.stubs.get("hook:method") and name in getattr(obj, "methods", ())):
+                return FuncRef(None, builtin="method:" + name, self_obj=obj)
             raise PyExc("AttributeError", (f"{obj.label}.{name}",), node)
         if isinstance(obj, ModRef):
             if obj.name.startswith("ext:"):
